@@ -17,13 +17,13 @@ RECURSIVE ApplyFrames(_, _, _, _)
 ApplyFrames(qq, frames, i, fd) ==
   IF i > Len(frames) THEN qq
   ELSE LET f == frames[i]
-           rec == [t |-> f.t, lname |-> f.lname, name |-> f.name, qt |-> f.qt, fd |-> fd, tcp |-> afd[fd].tcp, ck |-> f.ck]
+           rec == [t |-> f.t, lname |-> f.lname, name |-> f.name, qt |-> f.qt, qc |-> f.qc, fd |-> fd, tcp |-> afd[fd].tcp, ck |-> f.ck]
        IN IF f.bad = 1 THEN ApplyFrames(qq, frames, i + 1, fd)
           ELSE ApplyFrames(IF f.qid \in DOMAIN qq THEN [qq EXCEPT ![f.qid] = rec] ELSE qq @@ (f.qid :> rec), frames, i + 1, fd)
 
 NotePacket(fd, p, pid) ==
   IF Authentic(fd, p)
-  THEN /\ auth' = auth @@ (pid :> [t |-> aq[p.qid].t, lname |-> aq[p.qid].lname, qt |-> aq[p.qid].qt, srv |-> afd[fd].srv])
+  THEN /\ auth' = auth @@ (pid :> [t |-> aq[p.qid].t, lname |-> aq[p.qid].lname, qt |-> aq[p.qid].qt, qc |-> aq[p.qid].qc, srv |-> afd[fd].srv])
        /\ credit' = IF afd[fd].srv \in DOMAIN credit THEN [credit EXCEPT ![afd[fd].srv] = @ + 1]
                     ELSE credit @@ (afd[fd].srv :> 1)
        /\ UNCHANGED <<acfg, afd, aq, areq, unauth>>
@@ -77,7 +77,7 @@ Handle(e) ==
     [] e.e = "call" ->
          IF e.api = "process" THEN credit' = <<>> /\ UNCHANGED <<acfg, afd, aq, auth, areq, unauth, tin>> /\ Acc
          ELSE IF "name" \in DOMAIN e /\ "qt" \in DOMAIN e /\ e.t \notin DOMAIN areq
-              THEN areq' = areq @@ (e.t :> [lname |-> e.name, qt |-> e.qt]) /\ UNCHANGED <<acfg, afd, aq, auth, credit, unauth, tin>> /\ Acc
+              THEN areq' = areq @@ (e.t :> [lname |-> e.name, qt |-> e.qt, qc |-> IF "qc" \in DOMAIN e THEN e.qc ELSE 1]) /\ UNCHANGED <<acfg, afd, aq, auth, credit, unauth, tin>> /\ Acc
          ELSE IF e.api \in {"setservers", "reinit"} THEN Stop
          ELSE Skip
     [] e.e = "sk" -> HSk(e)
